@@ -261,6 +261,7 @@ fn dry_schedule(env: &Env, tree: &Tree, t0: &H, kinds: &[u8], round: bool, len: 
         blocks: tree.blocks.clone(),
         genesis: tree.genesis.clone(),
         order: tree.order.clone(),
+        pow: tree.pow,
     };
     let mut slots = vec![slot_of(scratch.get(t0), 0)];
     let mut cur = t0.clone();
